@@ -175,7 +175,12 @@ func (m *StrMap[V]) makeHashtable() {
 
 // Get ...
 func (m *StrMap[V]) Get(s string) (t V, ok bool) {
-	slot := uint32(maphash.String(m.seed, s)) % uint32(len(m.hashtable))
+	n := uint32(len(m.hashtable))
+	if n == 0 {
+		// never loaded
+		return t, false
+	}
+	slot := uint32(maphash.String(m.seed, s)) % n
 	i := m.hashtable[slot]
 	if i < 0 {
 		return t, false
